@@ -104,7 +104,7 @@ def run_moments(ctx, rng, ncols, tuples, specials):
     plus = [e for e in idx if e[0] == "+"]
     ctx.ev("moment_partitions_compared")
     ctx.check(len(plus) == len(part), "number_of_groups_differs_from_number_of_distinct_tuples", groups=len(plus), tuples=len(part),
-              index=[repr(e) for e in idx], **wit)
+              index=[repr(e) for e in idx], wit=wit)
     got_parts = []
     for e in plus:
         lam = pd.Series(0.0, index=dp.index)
@@ -112,7 +112,7 @@ def run_moments(ctx, rng, ncols, tuples, specials):
         w = np.asarray(dp.signed_weights(lam), float)
         got_parts.append([i for i in range(n) if abs(w[i] - 1.0) > 1e-9])  # w_i = 1 - n*[i in g]/n_g
     ctx.check(norm_partition(got_parts) == exp, "moment_groups_are_not_the_tuple_groups", got=norm_partition(got_parts), expected=exp,
-              index=[repr(e) for e in idx], **wit)
+              index=[repr(e) for e in idx], wit=wit)
     # --- the same table as control features (single sensitive column): one event per distinct control tuple
     sfs = ["u" if rng.random() < 0.5 else "v" for _ in range(n)]
     dpc = red.DemographicParity()
@@ -120,7 +120,7 @@ def run_moments(ctx, rng, ncols, tuples, specials):
     events = {e[1] for e in dpc.index}
     ctx.ev("moment_partitions_compared")
     ctx.check(len(events) == len(part), "number_of_control_strata_differs_from_number_of_distinct_control_tuples", strata=len(events),
-              tuples=len(part), index=[repr(e) for e in list(dpc.index)[:12]], **wit)
+              tuples=len(part), index=[repr(e) for e in list(dpc.index)[:12]], wit=wit)
     strata_parts = {}
     for e in dpc.index:
         if e[0] != "+":
@@ -132,7 +132,7 @@ def run_moments(ctx, rng, ncols, tuples, specials):
     # a stratum with a single sensitive group has all-zero weights (r=1): recover only multi-group strata
     multi = [sorted(v) for v in strata_parts.values() if v]
     exp_multi = [rows_ for rows_ in exp if len({sfs[i] for i in rows_}) >= 2]
-    ctx.check(sorted(multi) == sorted(exp_multi), "control_strata_are_not_the_tuple_groups", got=sorted(multi), expected=sorted(exp_multi), **wit)
+    ctx.check(sorted(multi) == sorted(exp_multi), "control_strata_are_not_the_tuple_groups", got=sorted(multi), expected=sorted(exp_multi), wit=wit)
     # --- BoundedGroupLoss index = one entry per tuple; EqualizedOdds '+' entries per (label, tuple) pair
     bgl = red.BoundedGroupLoss(red.ZeroOneLoss(), upper_bound=0.1)
     bgl.load_data(X, y, sensitive_features=table)
@@ -140,12 +140,12 @@ def run_moments(ctx, rng, ncols, tuples, specials):
     exp_means = sorted(round(float(np.mean([1 - y[i] for i in rows_])), 12) for rows_ in exp)
     ctx.ev("moment_partitions_compared")
     ctx.check(len(gl) == len(part) and sorted(round(float(v), 12) for v in gl) == exp_means, "bounded_group_loss_groups_are_not_the_tuple_groups",
-              got=sorted(float(v) for v in gl), expected=exp_means, **wit)
+              got=sorted(float(v) for v in gl), expected=exp_means, wit=wit)
     eo = red.EqualizedOdds()
     eo.load_data(X, y, sensitive_features=table)
     n_pairs = len({(y[i], tuple(rows[i])) for i in range(n)})
     ctx.check(len([e for e in eo.index if e[0] == "+"]) == n_pairs, "equalized_odds_entries_differ_from_label_tuple_pairs",
-              got=len([e for e in eo.index if e[0] == "+"]), expected=n_pairs, **wit)
+              got=len([e for e in eo.index if e[0] == "+"]), expected=n_pairs, wit=wit)
     # --- MetricFrame's partition into non-empty intersectional groups
     rec = RecordingMetric("rec")
     mf = MetricFrame(metrics=rec, y_true=list(range(n)), y_pred=list(range(n)), sensitive_features=pd.DataFrame(rows, columns=names))
@@ -155,8 +155,8 @@ def run_moments(ctx, rng, ncols, tuples, specials):
         if r is not None:
             mf_parts.append(sorted(r["y_true"]))
     ctx.ev("metricframe_partitions_compared")
-    ctx.check(norm_partition(mf_parts) == exp, "metricframe_partition_differs_from_tuple_partition", got=norm_partition(mf_parts), expected=exp, **wit)
-    ctx.check(norm_partition(got_parts) == norm_partition(mf_parts), "moment_partition_differs_from_metricframe_partition", **wit)
+    ctx.check(norm_partition(mf_parts) == exp, "metricframe_partition_differs_from_tuple_partition", got=norm_partition(mf_parts), expected=exp, wit=wit)
+    ctx.check(norm_partition(got_parts) == norm_partition(mf_parts), "moment_partition_differs_from_metricframe_partition", wit=wit)
 
 
 def run_thresholder(ctx, rng, ncols, tuples, specials):
@@ -189,14 +189,14 @@ def run_thresholder(ctx, rng, ncols, tuples, specials):
     keys = list(to.interpolated_thresholder_.interpolation_dict.keys())
     ctx.ev("thresholder_key_counts")
     ctx.check(len(keys) == len(part), "number_of_learned_rules_differs_from_number_of_distinct_tuples", rules=len(keys), tuples=len(part),
-              keys=[repr(k) for k in keys], **wit)
+              keys=[repr(k) for k in keys], wit=wit)
     p_full = np.asarray(to._pmf_predict(X, sensitive_features=table))[:, 1]
     # parity on the TRUE tuple groups (a collision merges groups and breaks it)
     ya = np.asarray(y)
     metrics = ["false_positive_rate", "true_positive_rate"] if constraint == "equalized_odds" else [RT.SIMPLE[constraint]]
     for m in metrics:
         vals = {repr(t): RT.expected_metric(m, p_full[r], ya[r]) for t, r in part.items()}
-        ctx.check(max(vals.values()) - min(vals.values()) <= 1e-9, "parity_broken_on_true_tuple_groups:" + m, per_group=vals, **wit)
+        ctx.check(max(vals.values()) - min(vals.values()) <= 1e-9, "parity_broken_on_true_tuple_groups:" + m, per_group=vals, wit=wit)
     # predict time: every row must get the probability its (score, tuple) got in the full training table
     ref = {}
     for i in range(n):
@@ -216,4 +216,4 @@ def run_thresholder(ctx, rng, ncols, tuples, specials):
         bad = [(sub[j], float(ps[j]), float(ref[(s[sub[j]], rows[sub[j]])])) for j in range(len(sub))
                if abs(ps[j] - ref[(s[sub[j]], rows[sub[j]])]) > 1e-12]
         ctx.check(not bad, "predict_time_rule_differs_from_fit_time_rule_of_the_same_tuple", mismatches=bad[:5],
-                  sub_table=[list(r) for r in sub_rows][:8], **wit)
+                  sub_table=[list(r) for r in sub_rows][:8], wit=wit)
